@@ -220,6 +220,8 @@ fn emit_body(entries: &[(String, N)], prefix: &str, out: &mut String) {
 }
 
 fn emit_sections(rng: &mut Rng, entries: &[(String, N)], path: &str, out: &mut String) {
+    // headers of super-tables that are put off until after the later siblings
+    let mut deferred = String::new();
     for (k, n) in entries {
         let p = if path.is_empty() { k.clone() } else { format!("{path}.{k}") };
         match n {
@@ -229,8 +231,13 @@ fn emit_sections(rng: &mut Rng, entries: &[(String, N)], path: &str, out: &mut S
                 let has_dotted = sub.iter().any(|(_, n)| matches!(n, N::Table(_, true)));
                 if has_sub && !has_dotted && rng.chance(1, 4) {
                     emit_sections(rng, sub, &p, out);
-                    out.push_str(&format!("[{p}]\n"));
-                    emit_body(sub, "", out);
+                    if rng.coin() {
+                        out.push_str(&format!("[{p}]\n"));
+                        emit_body(sub, "", out);
+                    } else {
+                        deferred.push_str(&format!("[{p}]\n"));
+                        emit_body(sub, "", &mut deferred);
+                    }
                 } else {
                     out.push_str(&format!("[{p}]\n"));
                     emit_body(sub, "", out);
@@ -247,6 +254,7 @@ fn emit_sections(rng: &mut Rng, entries: &[(String, N)], path: &str, out: &mut S
             _ => {}
         }
     }
+    out.push_str(&deferred);
 }
 
 /// One document, one statement per line.
